@@ -355,8 +355,10 @@ func (fs *fsMutable) Rename(ctx context.Context, op *fuseops.RenameOp) (err erro
 		if newChild.mode.IsDir() {
 			return jfuse.ENOSYS
 		}
-		// Delete new child, ignore if not present
-		_ = fs.deleteNSEntry(op.NewParent, op.NewName)
+		// Delete new child: this fails when it is a non-empty directory, which must not be replaced
+		if err = fs.deleteNSEntry(op.NewParent, op.NewName); err != nil {
+			return err
+		}
 	}
 
 	// Insert iNode into new readDir and lookup and remove from old.
